@@ -70,13 +70,13 @@ def build_state(cfg):
         # a user-added real unitary (a reflection), named "H"
         th = 0.37
         udict = unitaries.create_dict(
-            H=torch.tensor(
+            **{cfg.get("custom_name", "H"): torch.tensor(
                 [
                     [[np.cos(th), np.sin(th)], [np.sin(th), -np.cos(th)]],
                     [[0.0, 0.0], [0.0, 0.0]],
                 ],
                 dtype=torch.double,
-            )
+            )}
         )
     st = new_state(cfg["type"], cfg["nv"], cfg.get("nh"), cfg.get("na"), unitary_dict=udict)
     randomise(st, cfg["pseed"], cfg.get("scale", 1.0))
@@ -96,6 +96,11 @@ def build_data(cfg, with_bases):
     g = _gen(cfg["dseed"])
     N, nv = cfg["N"], cfg["nv"]
     data = g.integers(0, 2, size=(N, nv)).astype(np.float64)
+    if cfg.get("rows_mode") == "leading_columns" and N >= 2:
+        # every row is the first one except for its leading columns (records that agree on the last 64 spins)
+        for i in range(1, N):
+            data[i] = data[0]
+            data[i, : min(6, nv)] = g.integers(0, 2, size=min(6, nv))
     if cfg.get("dup") and N >= 2:
         # force duplicate rows
         for _ in range(max(1, N // 3)):
@@ -105,9 +110,9 @@ def build_data(cfg, with_bases):
     if with_bases:
         letters = ["X", "Y", "Z"]
         if cfg.get("custom_unitary"):
-            letters.append("H")
+            letters.append(cfg.get("custom_name", "H"))  # basis names are strings of any length
         mode = cfg.get("basis_mode", "mixed")
-        bases = np.full((N, nv), "Z", dtype="<U1")
+        bases = np.full((N, nv), "Z", dtype="<U%d" % max(len(x) for x in letters))
         if mode == "mixed":
             for i in range(N):
                 if g.random() < 0.6:
@@ -117,6 +122,14 @@ def build_data(cfg, with_bases):
         elif mode == "all_random":
             # a randomised-measurement record: (almost) every row has its own setting
             bases[...] = np.array(letters)[g.integers(0, len(letters), size=(N, nv))]
+        elif mode == "one_setting":
+            # one rotated setting shared by all rows but the first (which stays in the reference basis)
+            row = np.array([letters[int(g.integers(0, 2))] for _ in range(nv)])
+            bases[1:] = row
+        elif mode == "high_sites_shared":
+            row = np.full(nv, "Z", dtype=bases.dtype)
+            row[-1] = "X"
+            bases[1:] = row
         elif mode == "high_sites":
             # wide systems: only the last two sites are ever rotated (each row differently)
             for i in range(N):
@@ -144,7 +157,7 @@ def build_data(cfg, with_bases):
     return din, data, bases
 
 
-def make_witness(run, idx, handler=None, preempt=None, snapshot=True, flavour="class", retired=None):
+def make_witness(run, idx, handler=None, preempt=None, snapshot=True, flavour="class", retired=None, ret=None):
     """A user callback that records every protocol event into the run log.
 
     handler(kind, args, idx, nn_state, seq) is called after logging.
@@ -165,6 +178,7 @@ def make_witness(run, idx, handler=None, preempt=None, snapshot=True, flavour="c
         seq = run.log.add("ev", kind, tuple(int(a) for a in args), idx, dg)
         if handler is not None:
             handler(kind, args, idx, nn_state, seq)
+        return ret  # hooks may return anything (a count, True, a tuple): nobody is supposed to look at it
 
     if flavour == "lambda":
         return LambdaCallback(
@@ -183,22 +197,22 @@ def make_witness(run, idx, handler=None, preempt=None, snapshot=True, flavour="c
                 return seen["n"]
 
         def on_train_start(self, s):
-            ev("TS", s)
+            return ev("TS", s)
 
         def on_train_end(self, s):
-            ev("TE", s)
+            return ev("TE", s)
 
         def on_epoch_start(self, s, e):
-            ev("ES", s, e)
+            return ev("ES", s, e)
 
         def on_epoch_end(self, s, e):
-            ev("EE", s, e)
+            return ev("EE", s, e)
 
         def on_batch_start(self, s, e, b):
-            ev("BS", s, e, b)
+            return ev("BS", s, e, b)
 
         def on_batch_end(self, s, e, b):
-            ev("BE", s, e, b)
+            return ev("BE", s, e, b)
 
     return Witness()
 
